@@ -72,3 +72,30 @@ pub fn lin_event(id: &str, model: Model) -> Value {
     }
     ev
 }
+
+/// The case with every declared `$`-named variable renamed to a plain name, compiled: outcome and
+/// number of variables (None when the case declares no such variable).
+pub fn renamed_twin(case: &Value) -> Option<Value> {
+    let names: Vec<String> = case["dom"]
+        .as_array()?
+        .iter()
+        .filter_map(|d| d["name"].as_str())
+        .filter(|n| n.starts_with('$'))
+        .map(|n| n.to_string())
+        .collect();
+    if names.is_empty() {
+        return None;
+    }
+    let mut text = case.to_string();
+    for (k, n) in names.iter().enumerate() {
+        text = text.replace(&format!("\"name\":{}", Value::String(n.clone())), &format!("\"name\":\"usr{k}\""));
+    }
+    let twin: Value = serde_json::from_str(&text).ok()?;
+    let model = crate::conv::model_from_case(&twin);
+    let res = catch_unwind(AssertUnwindSafe(|| Linearizer::linearize(model)));
+    Some(match res {
+        Err(_) => json!({"out":"panic","nvars":0,"renamed":names.len()}),
+        Ok(Err(e)) => json!({"out":"err","kind":err_json(&e)["kind"],"nvars":0,"renamed":names.len()}),
+        Ok(Ok(lm)) => json!({"out":"ok","nvars":lm.variables().len(),"renamed":names.len()}),
+    })
+}
